@@ -71,6 +71,7 @@ type world struct {
 	rev     map[string]string // lower-case address -> spec
 	prev    map[string][]byte // last raw dump
 	hasHook bool
+	proofs  map[string][]byte         // proof bytes remembered by label (kind fabric / reuse)
 	ownCh   chan events.ExecutedEvent // own subscription to executed events (pipelined delivery), per executor instance
 }
 
@@ -220,6 +221,9 @@ type txSpec struct {
 	Type   int32                  `json:"type"`   // TransactionData.Type for t=td
 	VmType int32                  `json:"vmtype"` // TransactionData.VmType for t=td
 	Mut    map[string]interface{} `json:"mut"`
+	Ts     int64                  `json:"ts"`       // transaction timestamp in ns (default 1)
+	Gas    uint64                 `json:"gas"`      // t=eth: gas limit
+	GasP   string                 `json:"gasprice"` // t=eth: gas price (decimal)
 }
 
 type ibtpSpec struct {
@@ -240,12 +244,26 @@ type proofSpec struct {
 	Signers []string `json:"signers"` // key specs; "bad" = junk signature
 	Status  int32    `json:"status"`
 	HashOf  string   `json:"hash_of"` // hex: ibtp.Proof := sha256(this) instead of sha256(extra)
+	// kind "fabric": a really endorsed proof of chain Signer for the out-message (MIndex, src = ibtp.From, dst = ibtp.To,
+	// MFunc, MArgs), remembered under Label; kind "reuse": the very bytes remembered under Label
+	Signer string   `json:"signer"`
+	MIndex uint64   `json:"mindex"`
+	MFunc  string   `json:"mfunc"`
+	MArgs  []string `json:"margs"`
+	Label  string   `json:"label"`
 }
 
 func (w *world) buildIBTP(s *ibtpSpec) *pb.IBTP {
 	ib := &pb.IBTP{From: s.From, To: s.To, Index: s.Index, Type: pb.IBTP_Type(s.Type), TimeoutHeight: s.Timeout, Version: s.Version}
 	if strings.HasPrefix(s.Payload, "content:") {
-		ct := &pb.Content{Func: strings.TrimPrefix(s.Payload, "content:"), Args: [][]byte{[]byte("arg0")}}
+		parts := strings.Split(strings.TrimPrefix(s.Payload, "content:"), ":")
+		ct := &pb.Content{Func: parts[0], Args: [][]byte{[]byte("arg0")}}
+		if len(parts) > 1 { // "content:<func>:<arg>:<arg>..."
+			ct.Args = nil
+			for _, a := range parts[1:] {
+				ct.Args = append(ct.Args, []byte(a))
+			}
+		}
 		cb, _ := ct.Marshal()
 		h := sha256.Sum256(cb)
 		pd := &pb.Payload{Encrypted: false, Content: cb, Hash: h[:]}
@@ -278,6 +296,14 @@ func (w *world) buildProof(ib *pb.IBTP, p *proofSpec) ([]byte, []byte) {
 		}
 	case "hex":
 		extra = unhex(p.Hex)
+	case "fabric":
+		extra = fabEndorse(p.Signer, p.MIndex, ib.From, ib.To, p.MFunc, p.MArgs)
+		if w.proofs == nil {
+			w.proofs = map[string][]byte{}
+		}
+		w.proofs[p.Label] = extra
+	case "reuse":
+		extra = w.proofs[p.Label]
 	case "multisig":
 		bp := &pb.BxhProof{TxStatus: pb.TransactionStatus(p.Status)}
 		hash, err := utils.EncodePackedAndHash(ib, bp.TxStatus)
@@ -390,7 +416,13 @@ func (w *world) buildTx(s *txSpec) pb.Transaction {
 	if s.To != "" {
 		to = w.addr(s.To)
 	}
+	if s.T == "eth" {
+		return buildEthTx(k, nonce, to, s)
+	}
 	tx := &pb.BxhTransaction{From: hx.Addr(k), To: to, Timestamp: 1, Nonce: nonce}
+	if s.Ts != 0 {
+		tx.Timestamp = s.Ts
+	}
 	switch s.T {
 	case "transfer":
 		td := &pb.TransactionData{Type: pb.TransactionData_NORMAL, Amount: s.Amt}
@@ -549,6 +581,7 @@ type step struct {
 	Hex      string     `json:"hex"`
 	Txs      []txSpec   `json:"txs"`
 	Group    [][]txSpec `json:"group"`
+	FabCert  bool       `json:"fabcert"` // seed_chain: trust root := certificate of the chain's endorsing key (fabric rules)
 	Local    *bool      `json:"local"`
 	Deadline int        `json:"deadline_ms"`
 	Tx       *txSpec    `json:"tx"`
@@ -623,6 +656,9 @@ func (w *world) doStep1(s *step) map[string]interface{} {
 		}
 		if s.CType != "" {
 			chain.ChainType = s.CType
+		}
+		if s.FabCert {
+			chain.TrustRoot = fabChainOf(s.Chain).cert
 		}
 		if s.Trust != nil {
 			var addrs []string
@@ -934,7 +970,7 @@ func (w *world) receiptsOf(txs []pb.Transaction, ev *events.ExecutedEvent) [][]i
 				posted = append(posted, []interface{}{k, m[k].Index, m[k].IsBatch})
 			}
 		}
-		recs = append(recs, []interface{}{st, errClass(string(r.Ret)), retText(r.Ret), ordered, len(r.Events), retv, posted})
+		recs = append(recs, []interface{}{st, errClass(string(r.Ret)), retText(r.Ret), ordered, len(r.Events), retv, posted, r.GasUsed})
 	}
 	return recs
 }
